@@ -6,6 +6,7 @@ import (
 	"bytes"
 	"fmt"
 	"math/big"
+	"strconv"
 	"strings"
 
 	"seehuhn.de/go/postscript"
@@ -562,6 +563,12 @@ func suiteLex(o *suiteOut, r *rng, tier string, n int) {
 		{"0x1p-2", lexTok{kind: "op", s: []byte("0x1p-2")}}, {"1_0", lexTok{kind: "op", s: []byte("1_0")}}, {"1e", lexTok{kind: "op", s: []byte("1e")}},
 		{"+.", lexTok{kind: "op", s: []byte("+.")}}, {"16#", lexTok{kind: "op", s: []byte("16#")}}, {"37#1", lexTok{kind: "op", s: []byte("37#1")}},
 		{"1#0", lexTok{kind: "op", s: []byte("1#0")}}, {"Inf", lexTok{kind: "op", s: []byte("Inf")}}, {"NaN", lexTok{kind: "op", s: []byte("NaN")}},
+		{"8#-17", lexTok{kind: "op", s: []byte("8#-17")}}, {"16#+FF", lexTok{kind: "op", s: []byte("16#+FF")}}, {"2#-0", lexTok{kind: "op", s: []byte("2#-0")}}, {"36#-z", lexTok{kind: "op", s: []byte("36#-z")}},
+		{"8#1.5", lexTok{kind: "op", s: []byte("8#1.5")}}, {"8#1e2", lexTok{kind: "op", s: []byte("8#1e2")}}, {"8##1", lexTok{kind: "op", s: []byte("8##1")}}, {"8#1#2", lexTok{kind: "op", s: []byte("8#1#2")}},
+		{"8#9", lexTok{kind: "op", s: []byte("8#9")}}, {"16#G", lexTok{kind: "op", s: []byte("16#G")}}, {"#1", lexTok{kind: "op", s: []byte("#1")}}, {"1.5#1", lexTok{kind: "op", s: []byte("1.5#1")}}, {"0#0", lexTok{kind: "op", s: []byte("0#0")}},
+		{"--1", lexTok{kind: "op", s: []byte("--1")}}, {"+-1", lexTok{kind: "op", s: []byte("+-1")}}, {"1-", lexTok{kind: "op", s: []byte("1-")}}, {"1e+", lexTok{kind: "op", s: []byte("1e+")}}, {"1e1.5", lexTok{kind: "op", s: []byte("1e1.5")}},
+		{"1..2", lexTok{kind: "op", s: []byte("1..2")}}, {".", lexTok{kind: "op", s: []byte(".")}}, {"-", lexTok{kind: "op", s: []byte("-")}}, {"e5", lexTok{kind: "op", s: []byte("e5")}}, {"0x10", lexTok{kind: "op", s: []byte("0x10")}},
+		{"1,5", lexTok{kind: "op", s: []byte("1,5")}}, {"1'000", lexTok{kind: "op", s: []byte("1'000")}}, {"infinity", lexTok{kind: "op", s: []byte("infinity")}}, {"+inf", lexTok{kind: "op", s: []byte("+inf")}}, {"-nan", lexTok{kind: "op", s: []byte("-nan")}},
 		{"8#777", lexTok{kind: "int", i: 511}}, {"16#FFFE", lexTok{kind: "int", i: 65534}}, {"36#zz", lexTok{kind: "int", i: 1295}}, {"2#1000", lexTok{kind: "int", i: 8}},
 		{"9223372036854775807", lexTok{kind: "int", i: 9223372036854775807}}, {"-9223372036854775808", lexTok{kind: "int", i: -9223372036854775808}},
 		{"9223372036854775808", lexTok{kind: "real", f: 9223372036854775808}}, {"123456789012345678901234567890", lexTok{kind: "real", f: 123456789012345678901234567890}},
@@ -582,6 +589,37 @@ func suiteLex(o *suiteOut, r *rng, tier string, n int) {
 			o.fail("C04", "a legal token is accepted", line, "ok", class)
 		}
 		o.count("fixed lexical forms")
+	}
+	// numbers spelled with many digits (leading zeros, long fractions, long exponents): lengths around the powers of two
+	for _, ln := range []int{31, 32, 33, 63, 64, 65, 127, 128, 129, 255, 256, 257, 511, 512, 513, 1023, 1024, 1025, 2047, 2048, 2049, 4095, 4096, 4097, 8191, 8193, 40000} {
+		z := func(k int) string { return strings.Repeat("0", max(k, 0)) }
+		for _, c := range []struct {
+			text string
+			tok  lexTok
+		}{
+			{z(ln-1) + "7", lexTok{kind: "int", i: 7}}, {"-" + z(ln-2) + "7", lexTok{kind: "int", i: -7}}, {"3." + z(ln-3) + "5", lexTok{kind: "real", f: 3}}, {z(ln-2) + ".5", lexTok{kind: "real", f: 0.5}},
+			{"1e" + z(ln-3) + "2", lexTok{kind: "real", f: 100}}, {"16#" + z(ln-5) + "fF", lexTok{kind: "int", i: 255}}, {"1" + z(min(ln, 700)-4) + "e-" + fmt.Sprint(min(ln, 700)-4), lexTok{kind: "real", f: 1}}, // (strconv.ParseFloat of go1.23 misplaces the point beyond 800 digits)
+		} {
+			if len(c.text) != ln && !strings.Contains(c.text, "e-") {
+				continue // lengths below the shortest spelling of a form
+			}
+			prog := "{" + c.text + "}"
+			line := runCaseLine(0, false, prog)
+			_, intp, class := runProgram(0, false, []byte(prog))
+			if ln <= 600 {
+				p.run(0, false, prog) // also through the model
+			}
+			if intp != nil && class == "ok" {
+				if c.tok.kind == "real" && c.tok.f == 3 {
+					// 3.000...05: the nearest float64
+					c.tok.f, _ = strconv.ParseFloat(c.text, 64)
+				}
+				checkProcContents(o, line, intp, []lexTok{c.tok})
+			} else if intp != nil {
+				o.fail("C04", "a legal token is accepted", line, "ok", class)
+			}
+			o.count("numbers with many digits")
+		}
 	}
 	// every byte string up to length 1 (quick) / 2 (thorough), through implementation and model
 	maxLen := 1
@@ -784,6 +822,23 @@ func suiteEexec(o *suiteOut, r *rng, tier string, n int) {
 		o.count("form " + form)
 		if classE != classC || (classE == "ok" && stateWithoutCount(resE) != stateWithoutCount(resC)) {
 			o.fail("C05", "executing the encrypted section has exactly the effect of executing the plaintext with systemdict pushed", lineE, stateWithoutCount(resC), stateWithoutCount(resE))
+		}
+	}
+	// sections whose plaintext pops more dictionaries than the section pushed (no clear-text program is equivalent:
+	// closing the section puts the stack back to its old depth; implementation against the model only)
+	for _, unbal := range []string{"end end ", "end end end ", "end end 5 dict begin ", "end end 5 dict begin end ", "end end end 2 dict begin /q 1 def ", "end 1 dict begin end end "} {
+		for _, form := range []string{"hex", "binary"} {
+			inner := []byte(unbal + "mark currentfile closefile\n")
+			cipher := cipherEncrypt(55665, append([]byte{0xF1, 'x', 'y', 'z'}, inner...))
+			prog := "/D 5 dict def D begin /a 1 def 3 dict begin /b 2 def currentfile eexec\n"
+			if form == "hex" {
+				prog += hexArmour(r, cipher)
+			} else {
+				prog += string(cipher)
+			}
+			prog += "\n" + strings.Repeat("0", 64) + "\ncleartomark /after 7 def currentdict length"
+			p.run(100000, false, prog)
+			o.count("sections that pop more dictionaries than they pushed")
 		}
 	}
 	// a structured comment on the first line of the plaintext, for lead bytes ending in a line end or not
